@@ -278,3 +278,31 @@ package collection
 //@   ensures  err == nil && wheelOK(tw) && timersOK(tw) && liveOK(tw) && itemsOK(tw)
 //@   ensures  tw.interval == interval && tw.numSlots == numSlots && forall(k.(any), !smHas(tw.timers, k))
 //@   allocates
+
+// ---------------------------------------------------------------------------------------------
+// RollingWindow as seen by its clients (breaker, shedder). Model field rwAdded[rw][v] = how often v was added.
+// Reduce visits rwCount(rw) buckets starting at ring index rwStart(rw); which epochs those buckets hold is C16's business.
+// ---------------------------------------------------------------------------------------------
+//@ ghost var rwAdded map[any]map[float64]int
+//@ spec rwSpan(rw *RollingWindow) int = ite(0 <= (now-rw.lastTime)/rw.interval && (now-rw.lastTime)/rw.interval < rw.size, int((now-rw.lastTime)/rw.interval), rw.size)
+//@ spec rwCount(rw *RollingWindow) int = max(0, ite(rwSpan(rw) == 0 && rw.ignoreCurrent, rw.size - 1, rw.size - rwSpan(rw)))
+//@ spec rwStart(rw *RollingWindow) int = (rw.offset + rwSpan(rw) + 1) % rw.size
+
+//@ spec rwOK(rw *RollingWindow) bool = rw != nil && rw.size >= 1 && rw.interval > 0 && 0 <= rw.offset && rw.offset < rw.size && rw.win != nil && rw.win.size == rw.size &&
+//@      len(rw.win.buckets) == rw.size && forall(i.(int), implies(0 <= i && i < rw.size, rw.win.buckets[i] != nil))
+
+//@ func (rw *RollingWindow) Add
+//@   property C16
+//@   trusted
+//@   flag modifies_typeargs
+//@   requires rwOK(rw)
+//@   ensures rwOK(rw)
+//@   ensures rwAdded[rw] == upd(old(rwAdded[rw]), v, old(rwAdded[rw][v]) + 1)
+//@   modifies rwAdded[rw], RollingWindow.offset, RollingWindow.lastTime
+
+//@ func (rw *RollingWindow) Reduce
+//@   property C16
+//@   trusted
+//@   requires rwOK(rw)
+//@   iterates fn count rwCount(rw) arg rw.win.buckets[(rwStart(rw)+idx)%rw.size]
+//@   modifies nothing
